@@ -1634,10 +1634,20 @@ class ExecutionTracer(AbstractExecutionTracer):  # noqa: PLR0904
             arg_address = -1
             arg_type = type(None)
         else:
-            src_address = self.attribute_lookup(obj, attr_name)
-            attr_value = getattr(obj, attr_name)
-            arg_address = id(attr_value)
-            arg_type = type(attr_value)
+            # Looking up the attribute may execute (instrumented) code of the module under
+            # test, e.g., __getattribute__ or a property: this code must not be traced (it
+            # would look up attributes again), and what it raises is not raised by the
+            # instruction that is traced here (e.g., a STORE_ATTR).
+            with self.temporarily_disable():
+                try:
+                    src_address = self.attribute_lookup(obj, attr_name)
+                    attr_value = getattr(obj, attr_name)
+                    arg_address = id(attr_value)
+                    arg_type = type(attr_value)
+                except Exception:  # noqa: BLE001
+                    src_address = id(obj)
+                    arg_address = -1
+                    arg_type = type(None)
 
         # Different built-in methods and functions often have the same address when
         # accessed sequentially.
